@@ -6,7 +6,7 @@ set -u
 patch=$1; prop=$2; R=$3; tier=${4:-quick}
 export GOFLAGS=-mod=mod GOPROXY=off GOSUMDB=off GOTOOLCHAIN=local
 [ -d $R ] || git -C /repo worktree add -q --detach $R HEAD
-cd $R && git checkout -q -- . && git clean -fdq
+cd $R && git checkout -q -- . && git clean -fdq && git checkout -q --detach $(git -C /repo rev-parse HEAD)
 if ! git apply "$patch" 2>/tmp/apply_err_$$.txt; then echo "PATCH-DOES-NOT-APPLY: $(head -2 /tmp/apply_err_$$.txt)"; exit 2; fi
 if ! go build ./... 2>/tmp/build_err_$$.txt; then echo "BUILD-FAILS"; head -5 /tmp/build_err_$$.txt; git checkout -q -- .; exit 2; fi
 suite=$(go test -vet=off -count=1 ./... 2>&1 | grep -c "^FAIL")
